@@ -83,10 +83,14 @@ def obligations():
         v = st.ret
         inp = ("attr", SELF, "input_data_")
         if v[2] == "pairwise_kernels":
-            good = v[3] == (("var", "X"), inp) and dict(v[4]).get("metric") == ("attr", SELF, "base_kernel")
+            star = [x for k, x in v[4] if k is None]
+            pattr = ("attr", SELF, "base_kernel_params")
+            want = ("ite", ("cmp", ("Is",), (pattr, fx.C(None))), ("callres", None, "dict", (), ()), pattr)
+            good = (v[3] == (("var", "X"), inp) and dict((k, x) for k, x in v[4] if k is not None).get("metric") == ("attr", SELF, "base_kernel")
+                    and len(star) == 1 and fx.strip(star[0]) == want)
         else:
             good = v[2] == "self.base_kernel" and v[3] == (("var", "X"), inp)
-        ob(KernelRIM, "_compute_kernel", f"kernel between X and input_data_ ({v[2]})", good, {"ret": fx.show(v)})
+        ob(KernelRIM, "_compute_kernel", f"kernel between X and input_data_, with base_kernel_params forwarded ({v[2]})", good, {"ret": fx.show(v)})
     # Kauri
     it, rets, allp = _one_return(Kauri, "predict", lambda o, m: False)
     for st in rets:
